@@ -33,6 +33,8 @@ import (
 	"time"
 
 	"github.com/osrg/gobgp/v4/api"
+	"github.com/osrg/gobgp/v4/internal/pkg/table"
+	"github.com/osrg/gobgp/v4/internal/verif/polcfg"
 	"github.com/osrg/gobgp/v4/internal/verif/sx"
 	"github.com/osrg/gobgp/v4/pkg/apiutil"
 	"github.com/osrg/gobgp/v4/pkg/config/oc"
@@ -225,6 +227,9 @@ type world struct {
 	global   sx.Node
 	local    netip.Addr
 	peerConf map[string]*oc.Neighbor
+	polSets  oc.DefinedSets
+	polDefs  []oc.PolicyDefinition
+	polGen   int
 }
 
 func v4(s string) netip.Addr { return netip.MustParseAddr(s) }
@@ -612,7 +617,56 @@ func (w *world) obs() {
 		sort.Strings(in)
 		parts = append(parts, "(adjin "+k+" "+strings.Join(in, " ")+")")
 	}
+	// once a policy has been configured: the Adj-RIB-In as received (the listing above is after import policy)
+	if w.polGen > 0 {
+		for _, k := range names {
+			p := w.peers[k]
+			var in []string
+			w.s.ListPath(apiutil.ListPathRequest{TableType: api.TableType_TABLE_TYPE_ADJ_IN, Name: p.addr.String(), Family: bgp.RF_IPv4_UC}, func(prefix bgp.NLRI, paths []*apiutil.Path) {
+				for _, q := range paths {
+					in = append(in, fmt.Sprintf("(%s#%d %s)", prefix.String(), q.RemoteID, attrSummary(q.Attrs)))
+				}
+			})
+			sort.Strings(in)
+			parts = append(parts, "(adjraw "+k+" "+strings.Join(in, " ")+")")
+		}
+	}
 	w.out = append(w.out, "(obs "+strings.Join(parts, " ")+")")
+}
+
+// (policy import|export <default 0|1> (POLICY ...)): new definitions are added to everything defined so far (nothing the
+// other direction still refers to disappears), then the global assignment of that direction is replaced.
+func (w *world) policy(n sx.Node) {
+	w.polGen++
+	ds, pds, names := polcfg.Build(n.At(3), fmt.Sprintf("g%d", w.polGen))
+	w.polSets.PrefixSets = append(w.polSets.PrefixSets, ds.PrefixSets...)
+	w.polSets.NeighborSets = append(w.polSets.NeighborSets, ds.NeighborSets...)
+	w.polSets.BgpDefinedSets.CommunitySets = append(w.polSets.BgpDefinedSets.CommunitySets, ds.BgpDefinedSets.CommunitySets...)
+	w.polDefs = append(w.polDefs, pds...)
+	rp, err := table.NewAPIRoutingPolicyFromConfigStruct(&oc.RoutingPolicy{DefinedSets: w.polSets, PolicyDefinitions: w.polDefs})
+	if err != nil {
+		w.out = append(w.out, "(policy-error convert)")
+		return
+	}
+	if err := w.s.SetPolicies(context.Background(), &api.SetPoliciesRequest{DefinedSets: rp.DefinedSets, Policies: rp.Policies}); err != nil {
+		w.out = append(w.out, "(policy-error set "+strings.ReplaceAll(err.Error(), " ", "_")+")")
+		return
+	}
+	dir := api.PolicyDirection_POLICY_DIRECTION_IMPORT
+	if n.At(1).Atom == "export" {
+		dir = api.PolicyDirection_POLICY_DIRECTION_EXPORT
+	}
+	def := api.RouteAction_ROUTE_ACTION_REJECT
+	if n.At(2).Atom == "1" {
+		def = api.RouteAction_ROUTE_ACTION_ACCEPT
+	}
+	var ps []*api.Policy
+	for _, nm := range names {
+		ps = append(ps, &api.Policy{Name: nm})
+	}
+	if err := w.s.SetPolicyAssignment(context.Background(), &api.SetPolicyAssignmentRequest{Assignment: &api.PolicyAssignment{Name: "global", Direction: dir, Policies: ps, DefaultAction: def}}); err != nil {
+		w.out = append(w.out, "(policy-error assign "+strings.ReplaceAll(err.Error(), " ", "_")+")")
+	}
 }
 
 func (w *world) step(n sx.Node) {
@@ -721,11 +775,24 @@ func (w *world) step(n sx.Node) {
 		if p := w.peers[n.At(1).Atom]; p != nil {
 			w.s.ResetPeer(context.Background(), &api.ResetPeerRequest{Address: p.addr.String()})
 		}
-	case "softin":
+	case "policy":
+		w.policy(n)
+	case "softin", "softout", "softboth":
+		dir := map[string]api.ResetPeerRequest_Direction{"softin": api.ResetPeerRequest_DIRECTION_IN, "softout": api.ResetPeerRequest_DIRECTION_OUT, "softboth": api.ResetPeerRequest_DIRECTION_BOTH}[n.At(0).Atom]
+		addr := "all"
+		if p := w.peers[n.At(1).Atom]; p != nil {
+			addr = p.addr.String()
+		} else if n.At(1).Atom != "all" {
+			return
+		}
+		if err := w.s.ResetPeer(context.Background(), &api.ResetPeerRequest{Address: addr, Soft: true, Direction: dir}); err != nil {
+			w.out = append(w.out, "(reset-error)")
+		}
+	case "softin-old":
 		if p := w.peers[n.At(1).Atom]; p != nil {
 			w.s.ResetPeer(context.Background(), &api.ResetPeerRequest{Address: p.addr.String(), Soft: true, Direction: api.ResetPeerRequest_DIRECTION_IN})
 		}
-	case "softout":
+	case "softout-old":
 		if p := w.peers[n.At(1).Atom]; p != nil {
 			w.s.ResetPeer(context.Background(), &api.ResetPeerRequest{Address: p.addr.String(), Soft: true, Direction: api.ResetPeerRequest_DIRECTION_OUT})
 		}
